@@ -125,6 +125,12 @@ def repetition_shape(mod: ast.Module) -> dict[str, Any]:
     def last_return(s: ast.stmt, tmpl: str) -> bool:
         return isinstance(s, ast.Return) and s.value is not None and _template(s.value) == tmpl
 
+    if body and isinstance(body[0], ast.If) and ast.unparse(body[0].test) == "self.bounds_constraint is not None" \
+            and not body[0].orelse and len(body[0].body) == 1 and isinstance(body[0].body[0], ast.Return) \
+            and _template(body[0].body[0].value).startswith(o):
+        # computed bounds `{int(<n>)}` are printed from their expressions: outside the model (differential only)
+        body = body[1:]
+        out["computedBoundsPrinted"] = True
     if len(body) == 3 and if_return(body[0], "self._max is None", t_open) \
             and if_return(body[1], "self.min == self.max", t_eq) and last_return(body[2], t_rng):
         out["openBound"] = True
@@ -134,7 +140,11 @@ def repetition_shape(mod: ast.Module) -> dict[str, Any]:
         raise Refusal("Repetition.format_as_spec has an unknown shape:\n" + "\n".join(ast.unparse(s) for s in body))
     # `max` property: cap for an open bound
     mx = "\n".join(ast.unparse(s) for s in strip_doc(find_func(rep, "max")))
-    if mx != "if self._max is None:\n    return nodes.MAX_REPETITIONS\nreturn self._max":
+    # open bound: the library default cap, or (since the per-grammar cap) the owning grammar's `open_max`,
+    # which is None while the front end builds the node
+    if mx not in ("if self._max is None:\n    return nodes.MAX_REPETITIONS\nreturn self._max",
+                  "if self._max is None:\n    return nodes.MAX_REPETITIONS if self.open_max is None else self.open_max\n"
+                  "return self._max"):
         raise Refusal("Repetition.max has an unknown shape:\n" + mx)
     return out
 
@@ -206,6 +216,7 @@ def regenerate() -> dict[str, Any]:
     if refusals:
         vals = dict(UNKNOWN)
     vals["cap"] = cap
+    vals.setdefault("computedBoundsPrinted", False)
     body = HEADER
     if refusals:
         body += "-- REFUSED: " + " | ".join(r.replace("\n", " ⏎ ") for r in refusals) + "\n"
